@@ -952,6 +952,36 @@ def introspect(F, R):
             R.ob('C03.introspect', ok, {'func': f.q, 'state': Facts.short(st, 50), 'compared_id': cmpc, 'state_id': sorted(vals)})
             if not ok: R.find('C03.introspect', f, 'by-id', 'get_state_by_id returns state %s for id %s but that state\'s id is %s' % (Facts.short(st, 60), cmpc, sorted(vals)))
 
+@rule('names')
+def names(F, R):
+    """C03.names: id <-> state agreement of the by-id helpers: get_state_id_helper (get_state_by_id) and the name tools of
+    back/tools.hpp compare / index with get_state_id<stt, S>::value of the very state S whose object / typeid they deliver."""
+    from rules_core import backend_of
+    for f in F.funcs:
+        if not f.blocks or f.n != 'operator()': continue
+        tool = f.file.endswith('back/tools.hpp') and f.cls in ('fill_state_names', 'get_state_name')
+        byid = backend_of(f) in ('back', 'back11') and f.cls == 'get_state_id_helper'
+        if not (tool or byid): continue
+        ta = f.targs() or []
+        st = strip_cvref(str(ta[0])) if ta else None
+        if not st: continue
+        idstates = set()
+        for n in f.nodes:
+            if n and n['k'] == 'ref' and n.get('dk') in ('enum', 'smember') and n.get('n') == 'value' and 'ect' in n:
+                h, a, r = parse_type(F.strs[n['ect']])
+                if h.endswith('get_state_id') and a and len(a) >= 2: idstates.add(strip_cvref(a[1]))
+        delivered = set()
+        for n in f.nodes:
+            if n and n['k'] == 'typeid' and 'ty' in n: delivered.add(strip_cvref(F.strs[n['ty']]))
+            if n and n['k'] == 'call' and n.get('n') == 'at_key' and n.get('ta'):
+                t0 = n['ta'][0]
+                if isinstance(t0, dict) and 't' in t0: delivered.add(strip_cvref(F.strs[t0['t']]))
+        R.seen(f); R.anchor('by-id:' + f.cls)
+        ok = idstates == {st} and delivered == {st}
+        R.ob('C03.names', ok, {'func': f.q, 'state': Facts.short(st, 60)})
+        if not ok:
+            R.find('C03.names', f, 'id-state', '%s<%s>: the id used is that of %s, the %s delivered is that of %s' % (f.cls, Facts.short(st, 50), sorted(Facts.short(x, 40) for x in idstates), 'name' if tool else 'state object', sorted(Facts.short(x, 40) for x in delivered)), instance=Facts.short(st, 120))
+
 @rule('owners')
 def owners(F, R):
     """C09.owner: every back-end transition generated from a front-end row lives in the right cell and enters the right object:
